@@ -517,7 +517,7 @@ pub fn run(ctx: &mut Ctx) -> Result<(), Violation> {
         ctx.stage("pairs-3var-all-ops-layouts", true, r)?;
     }
 
-    let cases = ctx.tier.pick(100_000, 12_000_000);
+    let cases = ctx.tier.cases(100_000, 12_000_000);
     let r = par_random(ctx, "random-operands", cases, 120, |tape, st| {
         let mut t = Tape::new(tape);
         let c = gen_case(&mut t);
